@@ -49,11 +49,43 @@ where
     E: ParserError<I> + FromExternalError<I, pretty_decimal::Error>,
     <I as Stream>::Token: AsChar + Clone,
 {
+    // The parser (and everything walking the parsed tree) is recursive,
+    // so refuse absurdly nested expressions rather than overflowing the stack.
+    let _depth = ParenDepth::enter().ok_or_else(|| E::from_input(input))?;
     trace(
         "expr::paren_expr",
         paren(delimited(space0, add_expr, space0)).map(expr::ValueExpr::Paren),
     )
     .parse_next(input)
+}
+
+/// Maximum nesting of parentheses accepted in an expression.
+const MAX_PAREN_DEPTH: usize = 128;
+
+thread_local! {
+    static PAREN_DEPTH: std::cell::Cell<usize> = const { std::cell::Cell::new(0) };
+}
+
+/// Tracks how deep `paren_expr` is nested on this thread.
+struct ParenDepth;
+
+impl ParenDepth {
+    fn enter() -> Option<Self> {
+        PAREN_DEPTH.with(|d| {
+            if d.get() >= MAX_PAREN_DEPTH {
+                None
+            } else {
+                d.set(d.get() + 1);
+                Some(ParenDepth)
+            }
+        })
+    }
+}
+
+impl Drop for ParenDepth {
+    fn drop(&mut self) {
+        PAREN_DEPTH.with(|d| d.set(d.get() - 1));
+    }
 }
 
 fn add_expr<'i, I, E>(input: &mut I) -> winnow::Result<expr::Expr<'i>, E>
